@@ -494,8 +494,8 @@ fn q(sim: &Sim, msg: &Value) -> Result<Value, String> {
     serde_json::from_slice(b.as_slice()).map_err(|e| e.to_string())
 }
 
-fn pages_to_try(n_records: usize, rng: &mut Prng) -> Vec<u8> {
-    if thorough() {
+fn pages_to_try(n_records: usize, rng: &mut Prng, all: bool) -> Vec<u8> {
+    if all {
         return (1..=255u8).collect();
     }
     let full = (n_records / 20) as i64;
@@ -523,12 +523,20 @@ fn probe_queries(arg: u64, sim: &Sim, obs: &Obs, mon: &Monitor) -> ProbeResult {
     }
     owners.insert("nobody".to_string());
     let now = obs.time_ns;
+    // thorough tier: one owner per probe gets every page 1..=255 on both paged queries
+    let full_owner: Option<String> = if thorough() {
+        let v: Vec<&String> = owners.iter().collect();
+        Some((*rng.pick(&v)).clone())
+    } else {
+        None
+    };
     for o in &owners {
+        let all = full_owner.as_deref() == Some(o.as_str());
         // ---- listings by owner
         let mine: Vec<&LRec> = obs.listings.iter().filter(|l| l.key_owner == *o).collect();
         let mut got: Vec<u64> = vec![];
         let all_pages: Vec<u8> = (1..=((mine.len() / 20 + 2).min(255) as u8)).collect();
-        let extra = pages_to_try(mine.len(), &mut rng);
+        let extra = pages_to_try(mine.len(), &mut rng, all);
         let mut pages: BTreeSet<u8> = all_pages.iter().cloned().collect();
         pages.extend(extra);
         for p in pages {
@@ -594,7 +602,7 @@ fn probe_queries(arg: u64, sim: &Sim, obs: &Obs, mon: &Monitor) -> ProbeResult {
         let mineb: Vec<&BRec> = obs.buckets.iter().filter(|b| b.key_owner == *o).collect();
         let mut gotb: Vec<u64> = vec![];
         let mut pages: BTreeSet<u8> = (1..=((mineb.len() / 20 + 2).min(255) as u8)).collect();
-        pages.extend(pages_to_try(mineb.len(), &mut rng));
+        pages.extend(pages_to_try(mineb.len(), &mut rng, all));
         let mut page_err = false;
         for p in pages {
             let res = q(sim, &json!({"get_buckets": {"bucket_owner": o, "page_num": p}}));
@@ -674,10 +682,10 @@ fn probe_queries(arg: u64, sim: &Sim, obs: &Obs, mon: &Monitor) -> ProbeResult {
     let n_fin = obs.listings.iter().filter(|l| l.finalized.is_some()).count();
     let mut got: Vec<u64> = vec![];
     let mut pages: BTreeSet<u8> = (1..=((n_fin / 20 + 2).min(255) as u8)).collect();
-    if thorough() {
+    if thorough() && rng.chance(1, 3) {
         pages.extend(1..=255u8);
     } else {
-        pages.extend([13u8, 255]);
+        pages.extend([13u8, 14, 128, 255]);
     }
     let mut page_err = false;
     for p in pages {
